@@ -716,6 +716,7 @@ func init() {
 				us = append(us, engine.Unit{Name: "schedules-" + n, Run: twoParses(n, twoParseDocs[n])})
 			}
 			us = append(us, engine.Unit{Name: "schedules-reuse-after-rejection", Run: reuseAfterRejection})
+			us = append(us, engine.Unit{Name: "results-belong-to-the-caller", Run: ownedResults})
 			us = append(us, engine.RacePassUnit("C11"))
 			for i, d := range scheduleDocs() {
 				us = append(us, engine.Unit{Name: fmt.Sprintf("schedules-%d", i), Run: scheduleUnit(d)})
